@@ -417,7 +417,7 @@ func runCodec(c *core.Ctx) error {
 		return nil
 	}
 	per := c.Pick(24, 300)
-	const chunk = 400
+	const chunk = 1000 // histories per trace file (one TLC start each)
 	var t *core.Trace
 	inFile := 0
 	for ti, pt := range ptypes {
@@ -651,7 +651,12 @@ func packHistory(c *core.Ctx, t *core.Trace, kind string, cas int, r *rand.Rand)
 		t.Emit(core.Ev{"ev": "Panic", "in": "GetRecords", "kind": kind, "msg": msg})
 		return nil
 	}
-	t.Emit(core.Ev{"ev": "Unpack", "out": outOf(got)})
+	var o []interface{}
+	if msg := core.Guard(func() { o = outOf(got) }); msg != "" {
+		t.Emit(core.Ev{"ev": "Panic", "in": "project(unpacked)", "kind": kind, "msg": msg})
+		return nil
+	}
+	t.Emit(core.Ev{"ev": "Unpack", "out": o})
 	c.Count(fmt.Sprintf("%s:%d:%v:%d", kind, n, ev["status"], len(concat)), n > 0)
 	return nil
 }
@@ -858,17 +863,21 @@ func recsHistory(c *core.Ctx, t *core.Trace, rk *recKind, cas int, r *rand.Rand)
 		t.Emit(core.Ev{"ev": "Panic", "in": "GetRecords", "type": rk.name, "how": how, "unset": unset, "msg": msg})
 		return nil
 	}
-	t.Emit(core.Ev{"ev": "Unpack", "out": outOf(got)})
+	var o []interface{}
+	if msg := core.Guard(func() { o = outOf(got) }); msg != "" {
+		t.Emit(core.Ev{"ev": "Panic", "in": "project(unpacked)", "type": rk.name, "msg": msg})
+		return nil
+	}
+	t.Emit(core.Ev{"ev": "Unpack", "out": o})
 	c.Count(fmt.Sprintf("recs:%s:%s:%d:%v", rk.name, how, n, unset), n > 0)
 	return nil
 }
 
-func runContainers(c *core.Ctx) error {
+func runContainers(c *core.Ctx, t *core.Trace) error {
 	for _, kind := range []string{"composite", "zip", "lszip"} {
 		if !c.WantGen(kind) {
 			continue
 		}
-		t := c.Trace("c03_"+kind, "Trace_PackCodec")
 		for cas := 0; cas < c.Pick(30, 400); cas++ {
 			if !c.Want(kind, cas) {
 				continue
@@ -884,7 +893,6 @@ func runContainers(c *core.Ctx) error {
 		}
 	}
 	if c.WantGen("recs") {
-		t := c.Trace("c03_recs", "Trace_PackCodec")
 		per := c.Pick(12, 150)
 		for ki, rk := range recKinds {
 			for i := 0; i < per; i++ {
@@ -912,16 +920,33 @@ func Run(c *core.Ctx) error {
 	if !known[c.OnlyGen] && !strings.HasPrefix(c.OnlyGen, "kf_") {
 		return fmt.Errorf("unknown gen %q", c.OnlyGen)
 	}
+	for _, id := range strings.Split(c.Args["kf"], "+") {
+		if id != "" {
+			kf[id] = true
+		}
+	}
+	if c.OnlyGen == "kf_smbase_os" {
+		// witness of C03-smbase-os: a base pack of a system the reader has no record types for
+		t := c.Trace("c03_kf_smbase_os", "Trace_PackCodec")
+		forceOS = otherUnix[len(otherUnix)-1]
+		t.Reset("kf_smbase_os", 0, core.Ev{"type": "SMBasePack"})
+		if err := roundTrip(c, t, typeByName("SMBasePack"), c.Rng("kf_smbase_os", 0).Int63()); err != nil {
+			return err
+		}
+		t.Emit(core.Ev{"ev": "End", "n": 1})
+		return nil
+	}
 	runRegistry(c)
 	if err := runCodec(c); err != nil {
 		return err
 	}
-	if err := runContainers(c); err != nil {
+	ct := c.Trace("c03_containers", "Trace_PackCodec")
+	if err := runContainers(c, ct); err != nil {
 		return err
 	}
 	if c.OnlyGen == "" {
 		// drift only: the top-level fields each real writer carried in this run
-		t := c.Trace("c03_tops", "Trace_PackCodec")
+		t := ct
 		t.Reset("tops", 0, nil)
 		var names []string
 		for n := range stats.tops {
